@@ -67,13 +67,14 @@ def gen_wrap_consts(repo):
     ansi = _read(repo, "src/ansi/mod.rs")
     m = _need(re.search(r"pub fn wrap_line<.*?\n}\n", wr, re.S), "wrap_line body")
     body = m.group(0)
-    force = bool(re.search(r"let line_is_empty = new_len == graphemes_width;", body)) and \
-        bool(re.search(r"\} else \{\s*(?://[^\n]*\n\s*)*if line_is_empty && taken_width == 0 \{\s*byte_split_pos \+= item_len;\s*\}\s*break;\s*\}", body)) and \
-        bool(re.search(r"width_left -= item_width;\s*taken_width \+= item_width;", body))
+    stuck_stop = bool(re.search(
+        r"let first_width = graphemes\.first\(\)\.map_or\(0, \|&\(_, width\)\| width\);\s*"
+        r"if max_lines == 0\s*&& curr_line\.line_segments\.is_empty\(\)\s*"
+        r"&& \(width_left == 0 \|\| width_left < first_width\)\s*\{\s*"
+        r"stack\.push\(\(style, text\)\);\s*break Stop::LineLimit;\s*\}", body))
     sc_plain = "let next_line = if width_left == 0 {" in body
-    sc_guarded = "let next_line = if width_left == 0 && !line_is_empty {" in body
-    no_shortcut = bool(re.search(r"let next_line = \{\s*let mut byte_split_pos = 0;", body))
-    if [sc_plain, sc_guarded, no_shortcut].count(True) != 1 or (sc_guarded and not force) or (sc_plain and force):
+    sc_guarded = "let next_line = if width_left == 0 && first_width > 0 {" in body
+    if sc_plain == sc_guarded:
         raise SystemExit("extract: wrap: cannot tell how the `width_left == 0` shortcut of wrap_line is handled")
     zwfit = bool(re.search(r"Some\(_\) if stack\.iter\(\)\.all\(\|\(_, text\)\| text\.width\(\) == 0\) => \{\s*"
                            r"curr_line\.push_and_set_len\(\(style, text\), new_len\);\s*false\s*\}", body))
@@ -99,8 +100,8 @@ def gen_wrap_consts(repo):
     out += "/-- default `--wrap-right-percent` in permille -/\ndef defaultRightPermille : Nat := %d\n" % permille_default
     b = lambda x: "true" if x else "false"
     out += "/-- repairs present in the source (see Wrap.Fixes) -/\n"
-    out += "def wrapForceProgress : Bool := %s\n" % b(force)
-    out += "def wrapNoShortcut : Bool := %s\n" % b(no_shortcut)
+    out += "def wrapStuckStop : Bool := %s\n" % b(stuck_stop)
+    out += "def wrapZwShortcut : Bool := %s\n" % b(sc_guarded)
     out += "def wrapZwPerfectFit : Bool := %s\n" % b(zwfit)
     out += "/-- `truncate_str_impl` stops adding text after the first grapheme that did not fit -/\n"
     out += "def truncStopsAfterCut : Bool := %s\n" % b(tstop)
